@@ -10,7 +10,8 @@ From VerifProofs Require Import ScramProofs.
 Open Scope N_scope.
 
 (* T1: the working tree contains the three repairs (Start resets the state; a server-final needs a processed
-   server-first; a success reply for a running exchange needs the verified signature) *)
+   server-first; a success reply for a running exchange needs the verified signature) and Next answers an empty
+   challenge by reset() + initialClientMessage() *)
 Theorem C15_source_has_repairs : gen_scram_cfg = cfg_fixed.
 Proof. exact gen_scram_cfg_fixed. Qed.
 Print Assumptions C15_source_has_repairs.
@@ -27,32 +28,54 @@ Theorem C15_source_literals :
 Proof. exact gen_scram_literals. Qed.
 Print Assumptions C15_source_literals.
 
-(* For every reply script: success implies that a prefix [p] of the script ends with the ServerSignature valid
-   for an exchange whose client-first (fresh nonce from the oracle) is on the wire and whose well-formed
-   server-first (nonce extending the client nonce) occurs earlier in [p] — see ValidExchange in ScramProofs.v —
-   unless the very first reply is the success code (recorded known finding success-reply-without-exchange). *)
+(* For every reply script: success implies that the script has the shape
+     l0 ++ [empty challenge e] ++ tail ++ [success reply] ++ rest
+   where [tail] contains NO further empty challenge (the exchange started by [e] is the one RUNNING when the success reply
+   arrives: a restart would be an empty challenge in [tail]), the client-first written in answer to [e] (line S |l0| on the
+   wire) carries a fresh nonce from the oracle, and [tail] contains a well-formed server-first whose nonce extends that
+   nonce and, later, the ServerSignature over this exchange's AuthMessage under the salted password — RunningExchange in
+   ScramProofs.v — unless the very first reply is the success code (recorded known finding success-reply-without-exchange).
+   (Strengthened 2026-10-01: the earlier statement only demanded SOME valid exchange in a prefix of the script and was
+   satisfied by a client that keeps the verified flag across a restart inside one AUTH dialogue.) *)
 Theorem C15_success_implies_authenticated :
   forall (H : bytes -> bytes) (HMAC : bytes -> bytes -> bytes) (hsize : nat) (precis : bytes -> option bytes)
          (id : scram_id) (rands : list bytes) (st : scram_state) (lad a0 : bool) (script : list reply),
     Forall (fun r => is_nil r = false) rands ->
     let f := auth (scram_mech H HMAC hsize precis gen_scram_cfg id) lad a0 (st, rands) script in
     f_res f = ASuccess ->
-    (exists p rest, script = p ++ rest /\ ValidExchange HMAC hsize precis id rands (o_sent (f_out f)) p)
+    (exists l0 e tail t3 m rest,
+        script = l0 ++ Reply code_challenge e :: tail ++ Reply code_success m :: rest /\
+        RunningExchange HMAC hsize precis id rands (o_sent (f_out f)) l0 e tail t3)
     \/ (exists m rest, script = Reply code_success m :: rest).
 Proof. exact scram_success_authenticated. Qed.
 Print Assumptions C15_success_implies_authenticated.
 
-(* The client acknowledges (empty line) only a server-final that is valid for the running exchange: the replies
-   up to that point end with it.  No exception. *)
+(* The client acknowledges (empty line) only a server-final that is valid for the exchange running at that point: the
+   replies up to the acknowledgement are l0 ++ [empty challenge] ++ tail, no restart in tail, tail ends with that
+   server-final (t3 = []).  No exception. *)
 Theorem C15_ack_only_for_valid_final :
   forall (H : bytes -> bytes) (HMAC : bytes -> bytes -> bytes) (hsize : nat) (precis : bytes -> option bytes)
          (id : scram_id) (rands : list bytes) (st : scram_state) (lad a0 : bool) (script : list reply),
     Forall (fun r => is_nil r = false) rands ->
     let f := auth (scram_mech H HMAC hsize precis gen_scram_cfg id) lad a0 (st, rands) script in
     forall s1 s2 : list bytes, o_sent (f_out f) = s1 ++ ([] : bytes) :: s2 ->
-      ValidExchange HMAC hsize precis id rands s1 (firstn (length s1) script).
+      exists l0 e tail,
+        firstn (length s1) script = l0 ++ Reply code_challenge e :: tail /\
+        RunningExchange HMAC hsize precis id rands s1 l0 e tail [].
 Proof. exact scram_ack_only_valid_final. Qed.
 Print Assumptions C15_ack_only_for_valid_final.
+
+(* the conclusion really excludes a restarted exchange: [empty, server-first, server-final, empty, 235] does not have
+   the required shape, whatever the messages are *)
+Theorem C15_restart_invalidates_earlier_exchange :
+  forall HMAC hsize precis id rands sent mf mv m,
+    go_b64dec mf <> Some [] -> go_b64dec mv <> Some [] ->
+    ~ (exists l0 e tail t3 m' rest,
+        [Reply code_challenge []; Reply code_challenge mf; Reply code_challenge mv; Reply code_challenge []; Reply code_success m]
+          = l0 ++ Reply code_challenge e :: tail ++ Reply code_success m' :: rest /\
+        RunningExchange HMAC hsize precis id rands sent l0 e tail t3).
+Proof. exact restart_invalidates_earlier_exchange. Qed.
+Print Assumptions C15_restart_invalidates_earlier_exchange.
 
 (* The full statement (without the exception) is false of the code: a 235 answering the AUTH command. *)
 Theorem C15_bare_success_refuted :
@@ -61,7 +84,9 @@ Theorem C15_bare_success_refuted :
   exists script,
     let f := auth (scram_mech H HMAC hsize precis gen_scram_cfg id) false false (st, rands) script in
     f_res f = ASuccess /\
-    ~ (exists p rest, script = p ++ rest /\ ValidExchange HMAC hsize precis id rands (o_sent (f_out f)) p).
+    ~ (exists l0 e tail t3 m rest,
+        script = l0 ++ Reply code_challenge e :: tail ++ Reply code_success m :: rest /\
+        RunningExchange HMAC hsize precis id rands (o_sent (f_out f)) l0 e tail t3).
 Proof. exact scram_bare_success_refuted. Qed.
 Print Assumptions C15_bare_success_refuted.
 
@@ -95,4 +120,16 @@ Example C15_before_fix_refuted_replay :         (* honest call, then a second ca
   fst (snd (c15_retry true cfg_old ex_precis ex_id ex_params ex_rands [6; 0; 3; 8] [10; 8])) = bs "OK" /\
   nth 1 (snd (snd (c15_retry true cfg_old ex_precis ex_id ex_params ex_rands [6; 0; 3; 8] [10; 8]))) [1] = [] /\
   fst (snd (c15_retry true cfg_fixed ex_precis ex_id ex_params ex_rands [6; 0; 3; 8] [10; 8])) = bs "EMECH".
+Proof. vm_compute. repeat split; reflexivity. Qed.
+
+(* a client that does NOT reset on the empty challenge (restart_resets = false) is refuted: the verified flag of the
+   first exchange survives the restart; symbol 11 = the earlier server-final resent after the restart *)
+Definition cfg_no_restart_reset : scram_cfg :=
+  {| start_resets := true; final_requires_first := true; done_requires_verified := true; restart_resets := false |}.
+
+Example C15_restart_without_reset_refuted :
+  fst (c15_run true cfg_no_restart_reset ex_precis ex_id ex_params ex_rands [6; 0; 3; 6; 8]) = bs "OK" /\
+  fst (c15_run true cfg_fixed ex_precis ex_id ex_params ex_rands [6; 0; 3; 6; 8]) = bs "EMECH" /\
+  nth 5 (snd (c15_run true cfg_no_restart_reset ex_precis ex_id ex_params ex_rands [6; 0; 3; 6; 11])) [1] = [] /\
+  nth 5 (snd (c15_run true cfg_fixed ex_precis ex_id ex_params ex_rands [6; 0; 3; 6; 11])) [1] = bs "*".
 Proof. vm_compute. repeat split; reflexivity. Qed.
